@@ -3,6 +3,7 @@ from __future__ import annotations
 
 import math
 import random
+import re
 from dataclasses import asdict
 
 from . import core
@@ -10,7 +11,7 @@ from .framework import Prop, Report
 from .reduce_ops import (
     ENGINE_CLASS,
     ARG, FIRSTLAST, INF, NAN, REDUCTIONS, Case, cmp_impl_model, cmp_impl_oracle, cmp_oracle_spec, default_in_domain,
-    gen_chunks, gen_expected, gen_labels, gen_vals, model_line, parse_model_output, run_impl, run_oracle,
+    effective_min_count, gen_chunks, gen_expected, gen_labels, gen_vals, model_line, parse_model_output, run_impl, run_oracle,
 )
 
 ENGINES = [None, "numpy", "flox", "numbagg"]
@@ -537,3 +538,78 @@ class C20(ReduceProp):
             if legal(c):
                 return c
         return c
+
+    # width tie (second sentence of C20) -------------------------------------------------------------
+    IW_OPS = {"sum": "sum", "nansum": "sum", "prod": "prod", "nanprod": "prod"}
+
+    def after_cases(self, cases, impls, rep: Report):
+        """tie of the width-aware accumulation model (lean/FloxModel/IntWidth.lean, driver op `intwidth`) to the code:
+        for every integer sum / nansum / prod / nanprod case (eager and chunked) and every group with a member the model
+        with castfirst=1 at the width of the dtype flox returned must give flox's number (mismatch -> tie1); the
+        castfirst=0 model (accumulate in the input dtype, the repaired defect) is evaluated too and `rep.dist` counts
+        in how many cases it would have wrapped, i.e. how much of the stream lies in the wrap region."""
+        lines, meta = [], []
+        for ci, (c, im) in enumerate(zip(cases, impls)):
+            m = re.fullmatch(r"(u?)int(8|16|32|64)", c.dtype)
+            if c.func not in self.IW_OPS or not m:
+                continue
+            if im["kind"] != "ok":
+                rep.dist["intwidth:skipped-impl-" + im["kind"]] += 1
+                continue
+            res = im["vals"]
+            if res.dtype.kind not in "iu":
+                rep.dist["intwidth:skipped-result-" + res.dtype.name] += 1      # a fill forced a floating result dtype
+                continue
+            signed, win = (0 if m.group(1) else 1), int(m.group(2))
+            sacc, wacc = (1 if res.dtype.kind == "i" else 0), res.dtype.itemsize * 8
+            plan = im.get("plan", {})
+            blocks = None if c.chunks is None else [int(x) for x in (plan.get("chunks") or c.chunks)]
+            se = f" se={c.split_every}" if (blocks is not None and plan.get("method") == "map-reduce") else ""
+            mc, _ = effective_min_count(c)
+            for gi, g in enumerate(im["groups"].tolist()):
+                pos = [i for i, l in enumerate(c.labels) if l is not None and l == g]
+                if len(pos) < max(mc, 1):
+                    continue                                                    # the slot holds the fill, not a total
+                if blocks is None:
+                    ch = "-"
+                else:
+                    edges = [0]
+                    for b in blocks:
+                        edges.append(edges[-1] + b)
+                    ch = ",".join(str(sum(1 for i in pos if lo <= i < hi)) for lo, hi in zip(edges, edges[1:]))
+                data = " ".join(str(int(c.vals[i])) for i in pos)
+                for cf in (1, 0):
+                    lines.append(f"intwidth op={self.IW_OPS[c.func]} castfirst={cf} win={win} signed={signed} wacc={wacc} "
+                                 f"sacc={sacc} chunks={ch}{se} | {data}")
+                meta.append((ci, g, int(res[gi]), [int(c.vals[i]) for i in pos], win, signed))
+        if not lines:
+            return
+        outs = core.Driver().run(lines)
+        wrapped_cases, exceed_cases, seen = set(), set(), set()
+        for k, (ci, g, got, ms, win, signed) in enumerate(meta):
+            o1, o0 = outs[2 * k].strip(), outs[2 * k + 1].strip()
+            if not (o1.startswith("ok ") and o0.startswith("ok ")):
+                raise RuntimeError(f"intwidth driver op refused its input: {lines[2 * k]!r} -> {o1!r} / {o0!r}")
+            m1, m0 = int(o1[3:]), int(o0[3:])
+            c = cases[ci]
+            seen.add(ci)
+            rep.dist["intwidth:groups"] += 1
+            exact = sum(ms) if self.IW_OPS[c.func] == "sum" else math.prod(ms)
+            lo, hi = (-(1 << (win - 1)), (1 << (win - 1)) - 1) if signed else (0, (1 << win) - 1)
+            if not (lo <= exact <= hi):
+                exceed_cases.add(ci)
+            if m0 != got:
+                wrapped_cases.add(ci)
+            if m1 != got:
+                why = (f"intwidth: group {g}: flox returned {got}, the cast-first model at the result width gives {m1}"
+                       + (f" (flox's value IS the castfirst=0 model: accumulated at the {win}-bit input width)" if m0 == got else "")
+                       + f"; line: {lines[2 * k]}")
+                d3 = self.direct_check(c, impls[ci], run_oracle(c))
+                if d3 and any(self.match_finding(f, asdict(c), d3) for f in self._open_findings()):
+                    rep.dist["tie1-mismatch-inside-known-finding-cell"] += 1
+                else:
+                    rep.tie1.append((asdict(c), why))
+        rep.dist["intwidth:cases"] += len(seen)
+        rep.dist["intwidth:cases-total-beyond-input-width"] += len(exceed_cases)
+        rep.dist["intwidth:cases-castfirst0-model-would-wrap"] += len(wrapped_cases)
+        rep.dist["intwidth:cases-castfirst0-model-agrees"] += len(seen - wrapped_cases)
